@@ -123,6 +123,15 @@ def check_static_state(ctx, fb, rule):
                                                 role=STATE_TABLE.get(name, '(not in the table)')))
         if known:
             continue
+        # statics of the table regrouped into one aggregate: as many table entries vanished (from this file) as the
+        # new variable's record type has fields, all of plain types — the same state under another spelling
+        rec = fb.records.get(v['t'].replace('struct ', '').replace('class ', '').strip())
+        vanished = [k for k in STATE_TABLE if '::' in k and k not in fb.vars]
+        if rec is not None and rec.fields and not v['tls'] and len(rec.fields) <= len(vanished) and \
+                all('*' not in fl['t'] and '&' not in fl['t'] for fl in rec.fields):
+            ctx.instance(rule, 'D7 %s (regrouped)' % name, dict(fields=[fl['n'] for fl in rec.fields],
+                                                                replaces=sorted(x.split('::')[-1] for x in vanished)))
+            continue
         short = name.split('::')[-1]
         readers = []
         for f in fb.fn.values():
